@@ -107,7 +107,9 @@ class RegionGeom:
         if u.shape[0] != 4:
             raise RuntimeError("u random numbers must be of shape (4, N)")
 
-        u1, u2, u3, u4 = u
+        # work in double whatever the caller passes (the azimuths below would stay in
+        # the precision of a single / half precision u)
+        u1, u2, u3, u4 = np.asarray(u, dtype=np.float64)
 
         self.thetaTrSubV = np.arcsin(self.sinOfMaxThetaTrSubV * np.sqrt(u1))
         self.costhetaTrSubV = np.cos(self.thetaTrSubV)
@@ -499,7 +501,8 @@ class RegionGeomToO:
                 "numbers in [0, 1]"
             )
 
-        times = times * self.sourceOBSTime  # in s (do not scale the caller's array)
+        # in s (do not scale the caller's array; in double: 86400 s overflows half precision)
+        times = np.asarray(times, dtype=np.float64) * self.sourceOBSTime
         times = TimeDelta(times, format="sec")
         times = self.too_source.eventtime + times
         return times
